@@ -49,7 +49,18 @@ func govcRender(ms *Modules) string {
 		for _, x := range e.Exts {
 			exts = append(exts, x.Keyword+" "+x.Argument)
 		}
-		fmt.Fprintf(&buf, " exts=%v augmented=%d\n", exts, len(e.Augmented))
+		var extra []string
+		for k, vs := range e.Extra {
+			for _, v := range vs {
+				if val, ok := v.(*Value); ok && val != nil {
+					extra = append(extra, k+"="+val.Name)
+				} else {
+					extra = append(extra, fmt.Sprintf("%s=%T", k, v))
+				}
+			}
+		}
+		sort.Strings(extra)
+		fmt.Fprintf(&buf, " exts=%v extra=%v augmented=%d\n", exts, extra, len(e.Augmented))
 		var ks []string
 		for k := range e.Dir {
 			ks = append(ks, k)
@@ -107,7 +118,26 @@ func TestGovcBoundedC05Determinism(t *testing.T) {
 	dev := `module dv { namespace "urn:dv"; prefix dv; import m { prefix m; } deviation "/m:c/m:gll" { deviate add { min-elements 2; } } deviation "/m:d/m:gl" { deviate replace { type int8; } } deviation "/m:c/m:r" { deviate not-supported; } }`
 	bad1 := `module b1 { namespace "urn:b1"; prefix b1; import m { prefix m; } leaf q { type nosuch; } leaf q2 { type m:nosuch2; } augment "/m:nowhere" { leaf z { type string; } } container k { leaf a { type int8 { range "9..1"; } } leaf b { type string { length "x"; } } } }`
 	bad2 := `module b2 { namespace "urn:b2"; prefix b2; import m { prefix m; } augment "/m:c" { leaf e { type string; } } augment "/m:d" { leaf gl { type string; } } uses nogroup; leaf w { type enumeration { enum a { value 1; } enum b { value 1; } } } }`
-	sets := [][]string{{base, x}, {base, x, dev}, {base, x, bad1}, {base, x, bad2}, {base, x, bad1, bad2}}
+	// typedef rings, within a module and across two modules: every member is reported, whichever is met first
+	ring1 := `module r1 { namespace "urn:r1"; prefix r1; import r2 { prefix r2; }
+  typedef a { type b; } typedef b { type a; } typedef p { type q; } typedef q { type r; } typedef r { type p; }
+  typedef cross { type r2:back; } leaf la { type a; } leaf lp { type q; } leaf lc { type cross; } }`
+	ring2 := `module r2 { namespace "urn:r2"; prefix r2; import r1 { prefix r1; } typedef back { type r1:cross; } leaf lb { type back; } }`
+	// two revisions of one module loaded side by side, each augmenting the same node with its own child
+	tgt := `module tgt { namespace "urn:tgt"; prefix t; container box; }`
+	rev20 := `module aug { namespace "urn:aug"; prefix a; import tgt { prefix t; } revision 2020-01-01; augment "/t:box" { leaf from-2020 { type string; } } }`
+	rev21 := `module aug { namespace "urn:aug"; prefix a; import tgt { prefix t; } revision 2021-01-01; augment "/t:box" { leaf from-2021 { type string; } } }`
+	rev22 := `module aug { namespace "urn:aug"; prefix a; import tgt { prefix t; } revision 2022-01-01; augment "/t:box" { leaf from-2022 { type string; } } }`
+	// one grouping whose node carries lists with spare capacity (three if-features, five extension
+	// statements), used from two modules that each add their own to the uses / the augment
+	shared := `module sh { namespace "urn:sh"; prefix sh; feature f1; feature f2; feature f3; feature x; feature y;
+  extension e { argument a; }
+  grouping g { container gc { if-feature f1; if-feature f2; if-feature f3; sh:e "1"; sh:e "2"; sh:e "3"; sh:e "4"; sh:e "5"; leaf l { type string; } } }
+  container host; }`
+	user1 := `module u1 { namespace "urn:u1"; prefix u1; import sh { prefix sh; } container c1 { uses sh:g { if-feature sh:x; sh:e "from-u1"; } } augment "/sh:host" { if-feature sh:x; uses sh:g; } }`
+	user2 := `module u2 { namespace "urn:u2"; prefix u2; import sh { prefix sh; } container c2 { uses sh:g { if-feature sh:y; sh:e "from-u2"; } } }`
+	sets := [][]string{{base, x}, {base, x, dev}, {base, x, bad1}, {base, x, bad2}, {base, x, bad1, bad2},
+		{ring1, ring2}, {tgt, rev20, rev21}, {tgt, rev20, rev21, rev22}, {shared, user1, user2}}
 	evals, distinct := 0, 0
 	for si, srcs := range sets {
 		distinct++
